@@ -115,10 +115,26 @@ Definition Add (zx zy : bool) (z x y : Dec) : ores :=
       if negb (Bool.eqb (neg x) (neg y))
       then NaNR (with_neg (with_form (with_acc z Exact) Fzero) false)
       else Set_ zx z x
-  | Fzero, Fzero => OkR (with_neg (with_form (with_acc z Exact) Fzero) (neg x && neg y))
+  | Fzero, Fzero =>
+      let sg := if negb (Bool.eqb (neg x) (neg y)) && mode_eqb (dmode z) ToNegativeInf then true
+                else neg x && neg y in
+      OkR (with_neg (with_form (with_acc z Exact) Fzero) sg)
   | Finf, _ | _, Fzero => Set_ zx z x
   | _, _ => Set_ zy z y
   end.
+
+(* the tail of Sub for (±0) - y and x - (±Inf): like Neg, but the sign is set
+   before rounding *)
+Definition SubNeg (same : bool) (z y : Dec) : ores :=
+  let z := with_acc z Exact in
+  let z := if same then z
+           else
+             let z := with_form z (dform y) in
+             match dform y with
+             | Ffinite => with_mant (with_exp z (exp y)) (mant y)
+             | _ => z end in
+  let z := with_neg z (negb (neg y)) in
+  if prec z <? prec y then of_opt (round z 0) else OkR z.
 
 Definition Sub (zx zy : bool) (z x y : Dec) : ores :=
   let z := if prec z =? 0 then with_prec z (umax32 (prec x) (prec y)) else z in
@@ -133,9 +149,12 @@ Definition Sub (zx zy : bool) (z x y : Dec) : ores :=
       if Bool.eqb (neg x) (neg y)
       then NaNR (with_neg (with_form (with_acc z Exact) Fzero) false)
       else Set_ zx z x
-  | Fzero, Fzero => OkR (with_neg (with_form (with_acc z Exact) Fzero) (neg x && negb (neg y)))
+  | Fzero, Fzero =>
+      let sg := if Bool.eqb (neg x) (neg y) && mode_eqb (dmode z) ToNegativeInf then true
+                else neg x && negb (neg y) in
+      OkR (with_neg (with_form (with_acc z Exact) Fzero) sg)
   | Finf, _ | _, Fzero => Set_ zx z x
-  | _, _ => Neg_ zy z y
+  | _, _ => SubNeg zy z y
   end.
 
 Definition umul (z x y : Dec) : option Dec :=
@@ -179,4 +198,34 @@ Definition Quo (z x y : Dec) : ores :=
   | Fzero, Fzero | Finf, Finf => NaNR (with_neg (with_form (with_acc z Exact) Fzero) false)
   | Fzero, _ | _, Finf => OkR (with_form (with_acc z Exact) Fzero)
   | _, _ => OkR (with_form (with_acc z Exact) Finf)
+  end.
+
+(* FMA; zu: the receiver is the same variable as u *)
+Definition FMA (zu : bool) (z x y u : Dec) : ores :=
+  let z := if prec z =? 0 then with_prec z (umax32 (umax32 (prec x) (prec y)) (prec u)) else z in
+  match dform u with
+  | Fzero =>
+      match Mul z x y with
+      | OkR z' =>
+          OkR (if form_eqb (dform z') Fzero && acc_eqb (acc z') Exact && negb (Bool.eqb (neg z') (neg u))
+               then with_neg z' (mode_eqb (dmode z') ToNegativeInf) else z')
+      | r => r
+      end
+  | _ =>
+      let z0 := if zu then mkDec [] 0 (prec z) (dmode z) Exact Fzero false else z in
+      let z0 := with_neg z0 (xorb (neg x) (neg y)) in
+      match dform x, dform y with
+      | Ffinite, Ffinite =>
+          match umul (with_prec z0 MaxPrec) x y with
+          | None => CrashR
+          | Some z0' =>
+              let z0' := with_prec z0' (prec z0) in
+              Add (negb zu) zu (if zu then z else z0') z0' u
+          end
+      | Fzero, Finf | Finf, Fzero => NaNR (with_neg (with_form (with_acc z Exact) Fzero) false)
+      | Finf, _ | _, Finf =>
+          let z0' := with_form (with_acc z0 Exact) Finf in
+          Add (negb zu) zu (if zu then z else z0') z0' u
+      | _, _ => Set_ zu z u
+      end
   end.
